@@ -543,6 +543,14 @@ func pipelineJudge(r *R, prog *pnode, res *pResult, plan *faultPlan, sc *pScript
 		return
 	}
 	root := prog.op
+	if r.Focus == "C07" {
+		for _, chk := range b.argChecks {
+			if msg := chk(); msg != "" {
+				r.Violate("C07", "argument-slice-modified/stream", "%s (program %v)", msg, prog)
+				return
+			}
+		}
+	}
 	if res.term == errRunaway {
 		r.Violate(r.Focus, "does-not-terminate/"+root, "the stream kept producing items far beyond the reference output %v and never reported the end (program %v)", X, prog)
 		return
@@ -1006,6 +1014,12 @@ func pipelineIteratorChecks(r *R, prog *pnode, X []int, pulls []map[int]int, sla
 	for k := 0; k < 3; k++ {
 		if v, ok := it.Next(); ok {
 			r.Violate("C07", "end-not-sticky/iterator/"+prog.op, "iterator returned %d after it had reported the end (program %v)", v, prog)
+			return
+		}
+	}
+	for _, chk := range ib.argChecks {
+		if msg := chk(); msg != "" {
+			r.Violate("C07", "argument-slice-modified/iterator", "%s (program %v)", msg, prog)
 			return
 		}
 	}
